@@ -186,7 +186,7 @@ fn eval_consts(idx: &SrcIndex, scratch: &std::path::Path) -> Result<BTreeMap<Str
     // rustc's const evaluator computes the values of the real constant items (copied verbatim)
     std::fs::create_dir_all(scratch).map_err(|e| e.to_string())?;
     let mut src = String::from("#![allow(dead_code)]\n");
-    let consts: Vec<_> = idx.consts.iter().filter(|c| c.file == "src/map.rs").collect();
+    let consts: Vec<_> = idx.consts.iter().filter(|c| c.file == "src/map.rs" || c.file == "src/node.rs").collect();
     for c in &consts {
         src.push_str(&c.item_text);
         src.push('\n');
@@ -257,8 +257,9 @@ pub fn generate(idx: &SrcIndex, template: &str, scratch: &std::path::Path, want_
         }
         let parts: Vec<&str> = t[3..].split_whitespace().collect();
         match parts.as_slice() {
-            ["CONSTS"] => {
-                for c in idx.consts.iter().filter(|c| c.file == "src/map.rs") {
+            ["CONSTS"] | ["CONSTS", _] => {
+                let file = if parts.len() == 2 { format!("src/{}.rs", parts[1]) } else { "src/map.rs".to_string() };
+                for c in idx.consts.iter().filter(|c| c.file == file) {
                     match const_vals.get(&c.name) {
                         Some(v) => {
                             out.push_str(&format!(
